@@ -2,10 +2,13 @@ package checks
 
 import (
 	"fmt"
+	"regexp"
+	"strconv"
 	"strings"
 	"time"
 
 	"bmsym/smt"
+	"bmsym/sym"
 )
 
 func loopTimeouts(c *Ctx) (q time.Duration, k int, attrs int) {
@@ -41,6 +44,136 @@ func (lr *LoopRun) c01Viol(sv *StepVars) *smt.Term {
 	)
 }
 
+// c01Oracle judges a native run: every tag, comment and doctype of the output
+// must be allowed by the witness policy.
+func c01Oracle(w *seqWitness, res map[string]interface{}) (bool, string) {
+	for _, t := range decodeTokens(res["out_tokens"]) {
+		switch t.Type {
+		case "StartTag", "EndTag", "SelfClosing":
+			if !w.allowed(t.Data) {
+				return true, "output contains tag <" + t.Data + "> which the policy does not allow"
+			}
+		case "Comment":
+			if !w.Flags["allowComments"] {
+				return true, "output contains a comment although comments are not allowed"
+			}
+		case "Doctype":
+			return true, "output contains a doctype"
+		}
+	}
+	return false, ""
+}
+
+// c01Wide repeats the inductive step with tag names over ASCII plus the two
+// non-ASCII code points that strings.ToLower maps to ASCII letters (U+212A,
+// U+0130): the tokenizer folds only A-Z, so any other case folding between the
+// token and the table lookup separates the name that is looked up from the
+// name that is written.
+func (c *Ctx) c01Wide(ev *Evidence, timeout time.Duration, maxK, attrs int) ([]Violation, error) {
+	sym.WideNames = true
+	c.SkipStepFeas = true
+	defer func() { sym.WideNames = false; c.SkipStepFeas = false }()
+	scratch := NewEvidence("C01", c.Tier)
+	lr, err := c.loopSetup(scratch, "HarnessLoop_step", attrs)
+	if err != nil {
+		ev.Outside("non-ASCII tag names: the extended pass could not be set up (" + err.Error() + ")")
+		return nil, nil
+	}
+	defer lr.In.Close()
+	notUnsafe := smt.Not(lr.PS.AllowUnsafe)
+	// The token name is an explicitly allowed name with a k (or i) replaced by
+	// the non-ASCII code point that strings.ToLower folds back to it: with fresh
+	// ASCII strings a, b the allowed name is a.k.b and the token name a.K.b
+	// (K = U+212A; likewise i / U+0130). Both are substituted into the step
+	// relation, and every ToLower application on the token name is replaced by
+	// its value a.k.b (a fact about the library: byte-wise ASCII folding leaves
+	// a tag name alone, A1, and the two replacements fold K back), so the
+	// solvers see concatenations only.
+	a, b := smt.Var("wide.a", smt.String), smt.Var("wide.b", smt.String)
+	stepOf := regexp.MustCompile(`^s(\d+)\.`)
+	mkSub := func(key *smt.Term, ascii, wide string) func(full *smt.Term) map[*smt.Term]*smt.Term {
+		return func(full *smt.Term) map[*smt.Term]*smt.Term {
+			// the data variable of the last step
+			var data *smt.Term
+			best := -1
+			smt.Walk(full, func(x *smt.Term) {
+				if x.Op == "var" && strings.HasSuffix(x.Name, "tok.data") {
+					n := 0
+					if m := stepOf.FindStringSubmatch(x.Name); m != nil {
+						n, _ = strconv.Atoi(m[1])
+					}
+					if n > best {
+						best, data = n, x
+					}
+				}
+			})
+			if data == nil {
+				return nil
+			}
+			allowed := smt.Concat(a, smt.StrC(ascii), b)
+			sub := map[*smt.Term]*smt.Term{key: allowed, data: smt.Concat(a, smt.StrC(wide), b)}
+			smt.Walk(full, func(x *smt.Term) {
+				if x.Op == "uf" && x.Name == "lower" && x.Args[0] == data {
+					sub[x] = sub[data]
+				}
+				if x.Op == "str.replace_all" && x.Args[0].Op == "str.replace_all" {
+					if u := x.Args[0].Args[0]; u.Op == "uf" && u.Name == "lower" && u.Args[0] == data {
+						sub[x] = allowed
+					}
+				}
+			})
+			return sub
+		}
+	}
+	asciiLower := smt.Translate(`^[^A-Z]*$`)
+	extra := func(sv *StepVars) *smt.Term {
+		return smt.And(notUnsafe, isTag(sv.Kind), asciiLower.Match(a), asciiLower.Match(b))
+	}
+	if timeout < 60*time.Second {
+		timeout = 60 * time.Second
+	}
+	worst := smt.Unsat
+	for ki, key := range lr.PS.Els {
+		for _, f := range [][2]string{{"k", sym.KelvinSign}, {"i", sym.DottedI}} {
+			lr.Sub = mkSub(key, f[0], f[1])
+			name := fmt.Sprintf("C01-inductive-nonascii-key%d-%s", ki, f[0])
+			r, _ := lr.inductive(name, nil, extra, lr.c01Viol, timeout)
+			ev.Query(name, r)
+			ev.AddTransitions(len(lr.T.Paths))
+			ev.Sample(map[string]interface{}{"query": name + ": the same step for a tag whose name is an explicitly allowed name with a " + f[0] + " replaced by the non-ASCII code point that strings.ToLower folds back to it (the tokenizer does not)", "verdict": r.Status.String(), "solver": r.Solver, "seconds": r.Seconds})
+			switch r.Status {
+			case smt.Unknown:
+				worst = smt.Unknown
+			case smt.Sat:
+				found, details, replays, err := c.searchWitness(lr, ev, "C01-nonascii", maxK,
+					func(steps []*StepVars) *smt.Term { return extra(steps[len(steps)-1]) },
+					func(steps []*StepVars) *smt.Term { return lr.c01Viol(steps[len(steps)-1]) },
+					c01Oracle, timeout, nil, 6)
+				lr.Sub = nil
+				if err != nil {
+					return nil, err
+				}
+				if len(found) == 0 {
+					ev.Inconclusive("C01: the inductive step over non-ASCII tag names has a counterexample but no replayable token sequence was found")
+					return nil, nil
+				}
+				var out []Violation
+				for i := range found {
+					out = append(out, Violation{Sig: "site=loop-write non-ascii " + shapeOf(found[i]), Detail: details[i], Replay: replays[i]})
+				}
+				return out, nil
+			}
+		}
+	}
+	lr.Sub = nil
+	if worst == smt.Unknown {
+		ev.Outside("non-ASCII tag names: an extended inductive query was not decided; the claim is for 7-bit ASCII names")
+	} else {
+		ev.Bound("tag_name_alphabet", "7-bit ASCII; plus, in a separate pass, explicitly allowed names with a k/i replaced by U+212A/U+0130; other non-ASCII bytes are outside")
+	}
+	return nil, nil
+}
+
 func runC01(c *Ctx, ev *Evidence) ([]Violation, error) {
 	timeout, maxK, attrs := loopTimeouts(c)
 	lr, err := c.loopSetup(ev, "HarnessLoop_step", attrs)
@@ -64,7 +197,7 @@ func runC01(c *Ctx, ev *Evidence) ([]Violation, error) {
 	}
 	switch r.Status {
 	case smt.Unsat:
-		return nil, nil
+		return c.c01Wide(ev, timeout, maxK, attrs)
 	case smt.Unknown:
 		ev.Inconclusive("C01 inductive query undecided: " + r.Note)
 		return nil, nil
@@ -73,23 +206,7 @@ func runC01(c *Ctx, ev *Evidence) ([]Violation, error) {
 	found, details, replays, err := c.searchWitness(lr, ev, "C01", maxK,
 		func(steps []*StepVars) *smt.Term { return notUnsafe },
 		func(steps []*StepVars) *smt.Term { return lr.c01Viol(steps[len(steps)-1]) },
-		func(w *seqWitness, res map[string]interface{}) (bool, string) {
-			for _, t := range decodeTokens(res["out_tokens"]) {
-				switch t.Type {
-				case "StartTag", "EndTag", "SelfClosing":
-					if !w.allowed(t.Data) {
-						return true, "output contains tag <" + t.Data + "> which the policy does not allow"
-					}
-				case "Comment":
-					if !w.Flags["allowComments"] {
-						return true, "output contains a comment although comments are not allowed"
-					}
-				case "Doctype":
-					return true, "output contains a doctype"
-				}
-			}
-			return false, ""
-		}, timeout, nil, 6)
+		c01Oracle, timeout, nil, 6)
 	if err != nil {
 		return nil, err
 	}
